@@ -3,6 +3,8 @@ package chain
 import (
 	"fmt"
 	"sort"
+	"strconv"
+	"strings"
 
 	"verif/mc/reftrie"
 
@@ -67,10 +69,33 @@ func (s *State) Clone() *State {
 
 func isSystem(a *felt.Felt) bool { return a.Equal(&Sys1) || a.Equal(&Sys2) }
 
+// ge compares dotted protocol versions numerically, component by component (independent of juno's version parser:
+// the formula switch on the version is part of what C01 checks). Missing components and the unversioned era ("") are 0.
 func ge(version, than string) bool {
-	v, _ := core.ParseBlockVersion(version)
-	t, _ := core.ParseBlockVersion(than)
-	return v.GreaterThanEqual(t)
+	a, b := verParts(version), verParts(than)
+	for i := 0; i < 3; i++ {
+		if a[i] != b[i] {
+			return a[i] > b[i]
+		}
+	}
+	return true
+}
+
+func verParts(v string) [3]uint64 {
+	var out [3]uint64
+	i := 0
+	for _, part := range strings.Split(v, ".") {
+		if i == 3 {
+			break
+		}
+		n, err := strconv.ParseUint(part, 10, 64)
+		if err != nil {
+			n = 0
+		}
+		out[i] = n
+		i++
+	}
+	return out
 }
 
 // Apply applies a state diff of block num. It returns an error for diffs the protocol cannot
